@@ -142,7 +142,7 @@ def run(rep):
   rep.set('exhaustive_within_bounds', True)
   gen = _generated_variants(recs)
   rep.set('histories_through_generated_call_sites', len(gen))
-  scratch = common.scratch('c13')
+  scratch = common.scratch('c13_%d' % os.getpid())
   try:
     _replay_all(rep, recs + gen, procs, scratch)
   finally:
@@ -163,7 +163,7 @@ def replay(path):
   print(json.dumps(w['witness'].get('expected'), indent=1))
   print(json.dumps(w['witness'].get('observed'), indent=1))
   from .. import c13_callables
-  scratch = common.scratch('c13replay')
+  scratch = common.scratch('c13replay_%d' % os.getpid())
   env = c13_callables.Env(scratch)
   try:
     problems = c13_callables.run_history(env, rec, '0')
